@@ -325,6 +325,15 @@ class Align:
                 return arrs[0].with_(q=("bool", show(t, 120)))
             return Scalar()
         if k == "sub":
+            # result[i] of a tuple-valued expression is item i
+            if t[2][0] == "const" and isinstance(t[2][1], int) and \
+                    not isinstance(t[2][1], bool):
+                base = self.ev(t[1])
+                if isinstance(base, TupleV):
+                    i = t[2][1]
+                    if -len(base.items) <= i < len(base.items):
+                        return base.items[i]
+                    return Opaque(f"item {i} of {base!r}")
             return self._subscript(t)
         if k == "call":
             return self._call(t, t[1], list(t[2]), dict(t[3]))
@@ -739,12 +748,18 @@ class Align:
             if len(args) == 1:
                 sp = self._len_space(args[0])
                 return Perm("id", sp, special="identity")
-            if len(args) >= 2 and args[0] == ("const", 1) and \
-                    args[1][0] == "bin" and args[1][1] == "+" and \
-                    args[1][3] == ("const", 1):
-                sp = self._len_space(args[1][2])
-                if sp is not None:
-                    return Arr(sp, q=("rank",), mono="INC", nonneg=True)
+            if len(args) >= 2 and args[0] == ("const", 1):
+                # arange(1, len(x) + 1): ranks of x, however the end is
+                # spelled (1 + len(x), len(x) - (-1) ...)
+                from .tutil import lin as _lin
+                d = _lin(args[1])
+                if d.const == 1 and len(d.atoms) == 1 and \
+                        next(iter(d.atoms.values())) == 1:
+                    atom = next(iter(d.terms.values()), None) if \
+                        d.terms else None
+                    sp = self._len_space(atom) if atom is not None else None
+                    if sp is not None:
+                        return Arr(sp, q=("rank",), mono="INC", nonneg=True)
             return Arr((("range", show(t, 80)), ()), q=("range",),
                        mono="INC", nonneg=True)
         if fname == NP + "linspace":
